@@ -16,9 +16,11 @@ package authenticode
 //@   on call (pkcs7.ContentInfo).Unmarshal(ci, dest) ret (e): indirectFromSignedContent = (e == nil && dest == iface(indirect))
 //@   ensures @cms_signature_and_message_digest_verified ret1 == nil ==> cmsOK && tsOK
 //@   ensures @indirect_data_is_the_signed_content ret1 == nil ==> indirectFromSignedContent && ret0.Indirect == indirect
+//@   ensures @signature_present_on_success ret1 == nil ==> ret0 != nil && ret0.Indirect != nil
 //@
 //@ func checkSignatures
-//@   property C02
+//@   property C02 C11
+//@   nopanic
 //@   ghost curDigest *PEDigest = nil
 //@   ghost curHash crypto.Hash = 0
 //@   ghost checked set = emptyset()
